@@ -1,6 +1,6 @@
 """C15 — the observe mini-language means what its grammar and tables say.
 
-stage strings : EVERY string of <= N symbols over a 14-symbol DSL alphabet: accept/reject and meaning
+stage strings : EVERY string of <= N symbols over a 15-symbol DSL alphabet: accept/reject and meaning
 stage derivs  : Hypothesis-generated derivations of the grammar (nesting depth <= 4) rendered in several
                 spellings (whitespace, redundant brackets): meaning, equality of spellings, caching,
                 end-to-end observe(add by one spelling) / observe(remove by another)
@@ -250,7 +250,7 @@ def judge_string(s, ctx):
 
 
 # ----------------------------------------------------------------------------- stage strings
-ALPH = ["a", "b", "items", "+", "*", ".", ":", ",", "[", "]", " ", "1", "_", "i"]
+ALPH = ["a", "b", "items", "+", "*", ".", ":", ",", "[", "]", " ", "1", "_", "i", "in"]          # ("in": a Python keyword is a NAME like any other)
 MAXLEN = {"quick": 5, "thorough": 6}
 
 
@@ -296,11 +296,11 @@ def strings_run(case, ctx):
 
 
 # ----------------------------------------------------------------------------- stage derivs
-NAMES = ["a", "b", "c", "items2", "it", "_x", "a1", "a\u00e9", "items"]
+NAMES = ["a", "b", "c", "items2", "it", "_x", "a1", "a\u00e9", "in", "is", "not", "items"]
 
 
 def ast_strategy():
-    leaf = st.one_of(st.sampled_from(NAMES[:8]).map(lambda n: ["trait", n]), st.just(["items"]),
+    leaf = st.one_of(st.sampled_from(NAMES[:-1]).map(lambda n: ["trait", n]), st.just(["items"]),
                      st.sampled_from(["m", "items", "a"]).map(lambda n: ["meta", n]))
     return st.recursive(
         leaf,
@@ -386,7 +386,7 @@ class Obj(HasTraits):
     pass
 
 
-for _n in NAMES[:8] + ["m_t"]:
+for _n in NAMES[:-1] + ["m_t"]:
     Obj.add_class_trait(_n, Instance(HasTraits))
 Obj.add_class_trait("tagged", Int(m=True, items=True, a=True))
 
